@@ -107,6 +107,9 @@ func (t *trTranslator) directEffect(f *trFunc) bool {
 	if trDispatchOf[f] != nil {
 		return false // dynamic dispatch over a closed sum (trans_units_tablerender.go)
 	}
+	if trFragsOf(f) != nil {
+		return true // only fragments of the function are translated, each in the monad (trans_units_mapping.go)
+	}
 	return t.directEffectIn(f.pkg.info, f.decl.Body)
 }
 
@@ -188,6 +191,9 @@ func (t *trTranslator) callees(f *trFunc) []*trFunc {
 	if d := trDispatchOf[f]; d != nil {
 		return d.impls
 	}
+	if trFragsOf(f) != nil {
+		return t.fragCallees(f) // only fragments of the function are translated (trans_units_mapping.go)
+	}
 	res := t.calleesIn(f.pkg.info, f.decl.Body)
 	if !trCreateUnitSet[f.unit] {
 		// the functions of the Create units are translated for those units only (trans_units_create.go)
@@ -219,6 +225,10 @@ func (t *trTranslator) calleesIn(info *types.Info, root ast.Node) []*trFunc {
 			} else {
 				fo, _ = info.Uses[fn.Sel].(*types.Func)
 			}
+		case *ast.IndexExpr: // F[T](…): an explicit instantiation (trans_units_mapping.go)
+			fo = trInstantiatedFunc(info, fn.X)
+		case *ast.IndexListExpr:
+			fo = trInstantiatedFunc(info, fn.X)
 		}
 		if fo != nil {
 			if g := t.funcs[fo.Origin()]; g != nil && !t.builderCallFromOutside(info, fo) {
@@ -236,7 +246,7 @@ func (t *trTranslator) calleesIn(info *types.Info, root ast.Node) []*trFunc {
 
 // mutParams: parameters (receiver = index 0 of a method) of pointer or map type that the body assigns through
 func (t *trTranslator) mutParams(f *trFunc) {
-	if trDispatchOf[f] != nil {
+	if trDispatchOf[f] != nil || trFragsOf(f) != nil {
 		return
 	}
 	sig := f.obj.Type().(*types.Signature)
@@ -295,6 +305,10 @@ func (t *trTranslator) translateFunc(f *trFunc) {
 		t.translateDispatch(f, d)
 		return
 	}
+	if trFragsOf(f) != nil {
+		t.translateFragments(f) // designated parts of a function that as a whole is outside the subset (trans_units_mapping.go)
+		return
+	}
 	if f.decl.Body == nil {
 		trFail(f.decl.Pos(), "function without a body")
 	}
@@ -328,12 +342,19 @@ func (t *trTranslator) translateFunc(f *trFunc) {
 		for i := 0; i < l.Len(); i++ {
 			tp := l.At(i)
 			n := trMangle(tp.Obj().Name())
+			if trTParamUnused(tp, sig) {
+				continue // occurs only in the constraints of other type parameters (mapper.Nil[P interface{*T}, T any]) (trans_units_mapping.go)
+			}
 			switch cons := tp.Constraint().String(); cons {
 			case "comparable":
 				params = append(params, "{"+n+" : Type} [DecidableEq "+n+"] [GoZero "+n+"]")
 			case "any", "interface{}":
 				params = append(params, "{"+n+" : Type} [GoZero "+n+"]")
 			default:
+				if ps, ok := c.constraintParams(tp, sig); ok {
+					params = append(params, ps...) // a pointer constraint / an interface of methods as dictionary parameters (trans_units_mapping.go)
+					continue
+				}
 				trFail(f.decl.Pos(), "type parameter %s with the constraint %s is outside the subset", n, cons)
 			}
 		}
@@ -388,6 +409,7 @@ func (t *trTranslator) translateFunc(f *trFunc) {
 				}
 				body = fl.Body.List
 				results = fsig.Results()
+				trCurried[f] = fsig.Params().Len() // a call with the outer arguments only is a function value (trans_units_mapping.go)
 				c.inCallback = true // the returned closure runs many times: untranslated calls are FUNCTIONS of their arguments (trans_units_mapping.go)
 			}
 		}
@@ -607,6 +629,11 @@ func trRun(repo string) (map[string]string, []string) {
 				visit(g, stack)
 			} else {
 				f.rejected = &trReject{f.decl.Pos(), "recursive function is outside the subset"}
+			}
+		}
+		for _, g := range t.valueRefs(f) {
+			if g != f {
+				visit(g, stack) // a translated function used as a VALUE is emitted before its user too (trans_units_mapping.go)
 			}
 		}
 		delete(stack, f)
